@@ -64,6 +64,7 @@ type summary struct {
 	Scope        string         `json:"scope"`
 	Cases        int            `json:"cases"`
 	Compilations int            `json:"compilations"`
+	Retargeted   int            `json:"retargeted_values"`
 	Accepted     int            `json:"accepted"`
 	Rejected     int            `json:"rejected"`
 	Events       int            `json:"events"`
@@ -439,6 +440,9 @@ func runCase(h *polcase.Header, idx int, cs *polcase.Case, c *polcase.Conc, rng 
 	for ei := range h.Events {
 		ev := &h.Events[ei]
 		want := cs.Ideal[ei]
+		if c.Arch == arch.X32 {
+			want = cs.IdealX32[ei]
+		}
 		wantV, ok := polcase.RetValue(want)
 		if !ok {
 			fmt.Fprintln(os.Stderr, "unknown decision name", want)
@@ -517,6 +521,65 @@ func runCase(h *polcase.Header, idx int, cs *polcase.Case, c *polcase.Conc, rng 
 	}
 	if len(decisions) >= 2 {
 		sum.NonTrivial++
+	}
+	// history of the value: the SAME policy value (same Syscalls backing array), compiled above for c.Arch, is now compiled
+	// for another architecture of its class; its decisions there are the policy's (the first compilation must leave nothing
+	// behind that a later one could see)
+	if !cs.Pol.X86 && idx%2 == 0 {
+		var b *arch.Info
+		for _, o := range []*arch.Info{arch.I386, arch.ARM, arch.AARCH64} {
+			if o != c.Arch {
+				b = o
+				break
+			}
+		}
+		c2 := *c
+		c2.Arch = b
+		c2.Sys = nil
+		for _, s := range c.Sys {
+			if nr, ok := b.SyscallNames[s.Name]; ok {
+				c2.Sys = append(c2.Sys, polcase.SysPair{Name: s.Name, Nr: nr})
+			}
+		}
+		distinct := map[int]bool{}
+		for _, s := range c2.Sys {
+			distinct[s.Nr] = true
+		}
+		if len(c2.Sys) == len(c.Sys) && len(distinct) == len(c2.Sys) {
+			seccomp.VerifSetArch(&pol, b)
+			insts2, err2, pan2 := compile(&pol)
+			sum.Retargeted++
+			var raw2 []bpf.RawInstruction
+			if pan2 == nil && err2 == nil {
+				raw2, _ = bpf.Assemble(insts2)
+			}
+			hb := base
+			hb.Conc = c2.Describe()
+			if raw2 == nil {
+				hb.Kind, hb.Why = "decision", fmt.Sprintf("the policy value compiled for %s does not compile for %s afterwards (%v %v)", c.Arch.Name, b.Name, err2, pan2)
+				fail(hb)
+			} else {
+				for ei := range h.Events {
+					ev := &h.Events[ei]
+					if ev.Arch != "own" {
+						continue
+					}
+					wantV, _ := polcase.RetValue(cs.Ideal[ei])
+					d := words(&c2, ev, uint32(b.ID), c2.NrClass(ev.Nr, false)[0], rng)
+					got, _, verr := bpfvm.Run(raw2, &d)
+					sum.Events++
+					if verr != nil || got != wantV {
+						hb.Kind = "decision"
+						hb.Why = fmt.Sprintf("the same policy value, compiled for %s first and then for %s, returns a different action than the policy prescribes", c.Arch.Name, b.Name)
+						hb.Event = &concEvent{Words: d, Abstract: fmt.Sprintf("arch=%s nr=%d args=%v", ev.Arch, ev.Nr, ev.Args)}
+						hb.Expected, hb.Observed = fmt.Sprintf("%s (%#x)", cs.Ideal[ei], wantV), fmt.Sprintf("%#x", got)
+						hb.Program = render(raw2)
+						fail(hb)
+						break
+					}
+				}
+			}
+		}
 	}
 	if len(sum.Samples) < 4 && len(decisions) >= 2 && rng.Intn(50) == 0 {
 		sum.Samples = append(sum.Samples, map[string]interface{}{"policy": json.RawMessage(before), "concretisation": c.Describe(),
@@ -638,6 +701,15 @@ func main() {
 			}
 			c.LE = (idx+k)%2 == 0
 			runCase(&h, idx, &cs, c, rng, *expand, true)
+			// once per x86 case: the same policy compiled for the x32 description of the architecture (Compile!DecideX32Target)
+			if k == 0 && cs.Pol.X86 && !cs.Reject && len(cs.IdealX32) == len(h.Events) {
+				cx := *c
+				cx.Arch = arch.X32
+				if sys, err := polcase.PickSyscalls(cx.Arch, h.NSys, "mixed", rng); err == nil {
+					cx.Sys = sys
+					runCase(&h, idx, &cs, &cx, rng, *expand, false)
+				}
+			}
 		}
 		idx++
 	}
